@@ -59,8 +59,8 @@ Send(e) == /\ worker[e] = "run" /\ sndNxt[e] < Limit(e)
            /\ UNCHANGED <<app, left, written, sndUna, rcvNxt, finAt, delivered, eos, rerr, worker, reg, errst, gaveUp, retx, drops>>
 \* a timeout: neither the earliest unacknowledged segment nor an acknowledgement of it is in flight any more
 \* (the model's timer never fires spuriously: real timeouts are long compared with the delivery of a segment)
-TimedOut(e) == /\ \A m \in net[P(e)] : ~(m.k = "seg" /\ m.seq = sndUna[e])
-               /\ \A m \in net[e] : m.k = "rst" \/ m.ack <= sndUna[e]
+TimedOut(e) == /\ \A m \in net[P(e)] : IF m.k = "seg" THEN m.seq # sndUna[e] ELSE TRUE
+               /\ \A m \in net[e] : IF m.k = "rst" THEN TRUE ELSE m.ack <= sndUna[e]
 Retx(e) == /\ worker[e] = "run" /\ sndUna[e] < sndNxt[e] /\ retx[e] < MaxRetx
            /\ TimedOut(e)
            /\ Put(P(e), Seg(e, sndUna[e])) /\ retx' = [retx EXCEPT ![e] = @ + 1]
